@@ -62,7 +62,7 @@ def loaders_for(kind):
 
 def gen_cases(ctx):
     rng = ctx.rng("shapes")
-    rounds = 2 if ctx.quick else 4
+    rounds = 2 if ctx.quick else 10**6
     for rd in range(rounds):
         for i, cfg in enumerate(shapes(ctx, rng)):
             keys = key_family(rng, 8, 0, 12)
